@@ -36,7 +36,10 @@ type Case struct {
 	// of this element type (beyond 1024 elements the runtime grows by a factor
 	// below 2, so g is neither N nor a power of two): the state in which growth
 	// arithmetic that is off by one goes wrong.  The Ops follow.
-	Edge int  `json:"edge,omitempty"`
+	Edge int `json:"edge,omitempty"`
+	// Head != 0 overrides the head offset of constructor "edge": Head > 0 is
+	// the offset itself, Head < 0 counts from the end of the buffer (N+Head).
+	Head int  `json:"head,omitempty"`
 	Ops  []Op `json:"ops"`
 }
 
@@ -646,7 +649,7 @@ func runQueueT[T any](c Case, sp *spec[T], o *vk.Obs) (st *qstats, msg string) {
 		r.q = queue.NewSize[T](n)
 		r.sh = make([]T, n)
 	case "edge":
-		n := min(max(c.N, 2), 5000)
+		n := min(max(c.N, 2), 20000)
 		r.q = queue.NewSize[T](n)
 		r.sh = make([]T, n)
 		var zero T
@@ -656,6 +659,11 @@ func runQueueT[T any](c Case, sp *spec[T], o *vk.Obs) (st *qstats, msg string) {
 			h -= n / 2
 		}
 		h = max(h, 1)
+		if c.Head > 0 {
+			h = min(c.Head, n-1)
+		} else if c.Head < 0 {
+			h = max(n+c.Head, 1)
+		}
 		r.light = true
 		for i := 0; i < n+2*h && msg == ""; i++ {
 			switch {
